@@ -159,6 +159,14 @@ func (svc *service) peekMessageSize() (message.Type, int, error) {
 	// Total message length is remlen + 1 (msg type) + m (remlen bytes)
 	total := int(remlen) + 1 + m
 
+	// The receiver only reads from the connection when a whole read block is free in
+	// the buffer. A message longer than the buffer size less one block can therefore
+	// leave the processor waiting for bytes the receiver has no room to read, for good:
+	// nobody would even notice the peer closing the connection. Refuse it instead.
+	if int64(total) > svc.in.size-defaultReadBlockSize {
+		return 0, 0, fmt.Errorf("sendrecv/peekMessageSize: message of %d bytes exceeds what the buffer (%d bytes) can take in", total, svc.in.size)
+	}
+
 	mtype := message.Type(b[0] >> 4)
 
 	return mtype, total, err
